@@ -576,6 +576,7 @@ def ownPromiseSites : List (String × String × Coverage) := [
   ("QXmppAtmManager.cpp", "QXmppAtmManager::authenticate", .otherProperty "C18"),
   ("QXmppAtmManager.cpp", "QXmppAtmManager::distrust", .otherProperty "C18"),
   ("QXmppAtmManager.cpp", "QXmppAtmManager::makePostponedTrustDecisions", .otherProperty "C18"),
+  ("QXmppAtmManager.cpp", "QXmppAtmManager::removePostponedTrustDecisions", .otherProperty "C18"),
   ("QXmppTrustManager.cpp", "QXmppTrustManager::setTrustLevel", .otherProperty "C18"),
   ("QXmppOutgoingClient.cpp", "join", .streamInternal),
   ("QXmppOutgoingClient.cpp", "lookupXmppSrvRecords", .streamInternal),
